@@ -351,6 +351,25 @@ impl Ctx {
             in_toto::verif::start_recording();
         }
         let ld = link_dir.to_str().unwrap().to_string();
+        // C13: repeat the identical verification and collect the distinct (verdict, summary) pairs
+        let repeat = line["repeat"].as_u64().unwrap_or(0);
+        let mut distinct: Vec<Value> = vec![];
+        if let Ok(mb) = &top {
+            for _ in 0..repeat {
+                let rr = guarded(|| in_toto::verifylib::in_toto_verify(mb, keys.clone(), &ld, None));
+                let d = match &rr {
+                    Ok(Ok(m)) => match &m.metadata {
+                        MetadataWrapper::Link(l) => json!({"out": "ok", "sum": self.abstract_link(l, scn)}),
+                        _ => json!({"out": "ok", "sum": "layout"}),
+                    },
+                    Ok(Err(_)) => json!({"out": "err"}),
+                    Err(_) => json!({"out": "panic"}),
+                };
+                if !distinct.contains(&d) {
+                    distinct.push(d);
+                }
+            }
+        }
         let r = match &top {
             Ok(mb) => guarded(|| in_toto::verifylib::in_toto_verify(mb, keys, &ld, None)),
             Err(e) => Ok(Err(in_toto::Error::Opaque(format!("top layout does not parse: {e}")))),
@@ -378,6 +397,9 @@ impl Ctx {
             let _ = std::env::set_current_dir("/");
         }
         let mut res = json!({"out": out, "ran": ran, "written": written});
+        if repeat > 0 {
+            res["distinct"] = json!(distinct);
+        }
         match &r {
             Ok(Ok(mb)) => {
                 if let MetadataWrapper::Link(l) = &mb.metadata {
